@@ -791,7 +791,15 @@ func (e *kvElection) StopWithContext(ctx context.Context, opts StopOptions) erro
 	)
 
 	if opts.DeleteKey && wasLeader {
-		if err := e.kv.Delete(e.key); err != nil {
+		// Release the record this instance wrote, not whatever is under the
+		// key by now: a successor may have taken it over or re-created it.
+		var err error
+		if rd, ok := e.kv.(RevisionDeleter); ok {
+			err = rd.DeleteRevision(e.key, e.revision.Load())
+		} else {
+			err = e.kv.Delete(e.key)
+		}
+		if err != nil {
 			log := e.getLogger()
 			log.Warn("key_deletion_failed",
 				append(e.logWithContext(ctx),
